@@ -253,3 +253,159 @@ def mini_ident_fn(relabel, idx):
         raise ValueError(relabel)
 
     return fn
+
+
+# ---------------------------------------------------------------------------
+# steered two-residue placements: one decision quantity of the stacking definition is put at a prescribed
+# distance from its threshold by construction (the other two clearly satisfied), using the reference model's
+# own centroid / normal definitions
+
+
+def _rot_about(axis, angle_deg):
+    return small_rotation(list(axis), angle_deg)
+
+
+def _perp(n):
+    a = np.cross(n, [1.0, 0.0, 0.0])
+    if np.linalg.norm(a) < 0.3:
+        a = np.cross(n, [0.0, 1.0, 0.0])
+    return a / np.linalg.norm(a)
+
+
+@functools.lru_cache(maxsize=None)
+def complete_bases(fn):
+    """indices of residues of a corpus file whose base normal and centroid are defined in the reference model"""
+    s3 = corpus.structure(fn)
+    rr = geomref.from_structure3d(s3)
+    return [r.idx for r in rr if geomref.normal(r) is not None and geomref.centroid(r) is not None and r.letter in geomref.R_EDGES]
+
+
+def st_steered_stack(files):
+    from hypothesis import strategies as st
+
+    delta = st.sampled_from([1e-5, 1e-4, 1e-3, 1e-2, 0.1, 1.0])
+    return st.fixed_dictionaries({
+        "kind": st.just("steered-stack"), "file": st.sampled_from(files), "r1": st.integers(0, 10 ** 6), "r2": st.integers(0, 10 ** 6),
+        "mode": st.sampled_from(["normals", "offset", "distance"]), "delta": delta, "side": st.sampled_from([-1, 1]),
+        "antiparallel": st.booleans(), "spin": st.floats(0, 360), "azimuth": st.floats(0, 360),
+        "first_is_reference": st.booleans()})
+
+
+def build_steered_stack(case):
+    s3 = corpus.structure(case["file"])
+    idx = complete_bases(case["file"])
+    if len(idx) < 2:
+        raise ValueError("no complete bases in " + case["file"])
+    i1 = idx[case["r1"] % len(idx)]
+    i2 = idx[case["r2"] % len(idx)]
+    if i1 == i2:
+        i2 = idx[(case["r2"] + 1) % len(idx)]
+    i1, i2 = sorted((i1, i2))  # i1 is the earlier residue of the structure
+    rr = {r.idx: r for r in geomref.from_structure3d(s3)}
+    A, B = rr[i1], rr[i2]
+    # which of the two is kept in place (reference) and which is moved
+    ref, mov = (A, B) if case["first_is_reference"] else (B, A)
+    n_ref, c_ref = geomref.normal(ref), geomref.centroid(ref)
+    n_mov, c_mov = geomref.normal(mov), geomref.centroid(mov)
+    n_ref = n_ref / np.linalg.norm(n_ref)
+    n_mov = n_mov / np.linalg.norm(n_mov)
+    mode, side, delta = case["mode"], case["side"], case["delta"]
+    theta = (geomref.ST_NORMALS + side * delta) if mode == "normals" else 12.0
+    phi = (geomref.ST_OFFSET + side * delta) if mode == "offset" else 10.0
+    dist = (geomref.ST_MAX + side * delta) if mode == "distance" else 4.0
+    # frame: n_ref, and a perpendicular direction a2 at the drawn azimuth
+    a0 = _perp(n_ref)
+    a2 = _rot_about(n_ref, case["azimuth"]) @ a0
+    # v = vector from the LATER residue's centroid to the EARLIER one; it makes the angle phi with n_ref
+    v = np.cos(np.radians(phi)) * n_ref + np.sin(np.radians(phi)) * a2
+    # target normal of the moved residue: n_ref tilted by theta AWAY from v (so that the angle between v and the
+    # moved normal is phi + theta and the reference normal decides the offset criterion)
+    t = np.cos(np.radians(theta)) * n_ref - np.sin(np.radians(theta)) * a2
+    if case["antiparallel"]:
+        t = -t
+    # rotation taking n_mov to t, composed with a spin about t
+    ax = np.cross(n_mov, t)
+    if np.linalg.norm(ax) < 1e-9:
+        R0 = np.eye(3) if np.dot(n_mov, t) > 0 else _rot_about(_perp(n_mov), 180.0)
+    else:
+        ang = np.degrees(np.arctan2(np.linalg.norm(ax), np.dot(n_mov, t)))
+        R0 = _rot_about(ax / np.linalg.norm(ax), ang)
+    R = _rot_about(t, case["spin"]) @ R0
+    # centroid of the moved residue: the later->earlier vector must be dist * v
+    later_is_mov = mov.idx > ref.idx
+    c_target = c_ref - dist * v if later_is_mov else c_ref + dist * v
+
+    def pf(xyz, ri, k):
+        if ri == mov.idx:
+            return R @ (xyz - c_mov) + c_target
+        return xyz
+
+    return rebuild(s3, keep={i1, i2}, point_fn=pf)
+
+
+# ---------------------------------------------------------------------------
+# steered hydrogen-bond distance: one donor-acceptor distance between two neighbouring corpus residues is put at
+# 4.0 A +- delta by translating the second residue along the line joining the two atoms
+
+
+def _atom_pairs(ri, rj, what):
+    Li, Lj = ri.letter, rj.letter
+    out = []
+    if Li not in geomref.R_EDGES or Lj not in geomref.R_EDGES:
+        return out
+    if what == "base":
+        for d_list, a_list, swap in ((geomref.R_DONORS[Li], geomref.R_ACCEPTORS[Lj] + ["O2'"], False),
+                                     (geomref.R_DONORS[Lj], geomref.R_ACCEPTORS[Li] + ["O2'"], True)):
+            for d in d_list:
+                for a in a_list:
+                    n1, n2 = (a, d) if swap else (d, a)
+                    if n1 in ri.atoms and n2 in rj.atoms and (n1, n2) not in out and not (n1 == "O2'" and n2 == "O2'"):
+                        out.append((n1, n2))
+    else:
+        oxy = geomref.R_PHOSPHATE if what == "bph" else geomref.R_RIBOSE
+        for d in geomref.R_DONORS[Li]:
+            if d == "O2'" or d not in ri.atoms:
+                continue
+            for a in oxy:
+                if a in rj.atoms:
+                    out.append((d, a))
+    return [p for p in out if float(np.linalg.norm(ri.atoms[p[0]] - rj.atoms[p[1]])) <= 7.5]
+
+
+def st_steered_hbond(files):
+    from hypothesis import strategies as st
+
+    return st.fixed_dictionaries({
+        "kind": st.just("steered-hbond"), "file": st.sampled_from(files), "pair": st.integers(0, 10 ** 6),
+        "contact": st.integers(0, 10 ** 6), "what": st.sampled_from(["base", "base", "bph", "br"]),
+        "delta": st.sampled_from([1e-5, 1e-4, 1e-3, 1e-2, 0.1]), "side": st.sampled_from([-1, 1]), "swap": st.booleans()})
+
+
+def build_steered_hbond(case, info=None):
+    s3 = corpus.structure(case["file"])
+    pairs = neighbour_pairs(case["file"])
+    i, j = pairs[case["pair"] % len(pairs)]
+    if case.get("swap"):
+        i, j = j, i
+    rr = {r.idx: r for r in geomref.from_structure3d(s3)}
+    cand = _atom_pairs(rr[i], rr[j], case["what"])
+    if not cand:
+        if info is not None:
+            info["steer_skipped"] = True
+        return rebuild(s3, keep={i, j})
+    n1, n2 = cand[case["contact"] % len(cand)]
+    pa, pb = rr[i].atoms[n1], rr[j].atoms[n2]
+    d0 = float(np.linalg.norm(pb - pa))
+    if d0 < 1e-6:
+        if info is not None:
+            info["steer_skipped"] = True
+        return rebuild(s3, keep={i, j})
+    u = (pb - pa) / d0
+    shift = (geomref.HB_MAX + case["side"] * case["delta"] - d0) * u
+    if info is not None:
+        info["steered_atoms"] = (i, n1, j, n2)
+
+    def pf(xyz, ri, k):
+        return xyz + shift if ri == j else xyz
+
+    return rebuild(s3, keep={i, j}, point_fn=pf)
